@@ -231,4 +231,46 @@ def Rule.match (r : Rule) (m : Msg) : Outcome :=
   | some o => o
   | none => .call
 
+/-! ### `arg0namespace` (fixes/C14-05)
+
+`Rule.match` above is txdbus as found: the `arg0namespace` attribute is stored and never read.  The repaired
+router evaluates it after the argument-path constraints; `Gen.Route.evaluatesArg0ns` (probed from the source on
+every run) says which router the tree under test has.  `Rule.match` itself is kept as it is - it is the `false`
+instance, and C14's bus model builds on it. -/
+
+/-- `_inBusNamespace(name, namespace)`: `name == namespace or name.startswith(namespace + '.')`. -/
+def inBusNamespace (name ns : Str) : Bool :=
+  name == ns || (ns ++ ['.']).isPrefixOf name
+
+/-- The `arg0namespace` clause of the repaired `Rule.match`:
+
+    if hasattr(self, 'arg0namespace'):
+        if (len(body) == 0 or not isinstance(body[0], str)
+                or not _inBusNamespace(body[0], self.arg0namespace)):
+            return
+-/
+def matchArg0ns (r : Rule) (body : List Arg) : Option Outcome :=
+  match r.attrs.lookup "arg0namespace".toList with
+  | none => none
+  | some (.str ns) =>
+    match body.head? with
+    | some (.str s) => if inBusNamespace s ns then none else some .skip
+    | _ => some .skip
+  | some _ => some .err
+
+/-- `Rule.match(m)`; `evalArg0 = false`: txdbus as found (= `Rule.match`), `true`: after fixes/C14-05 (the clause
+is the last test before the callback, so it is reached exactly when everything before it let the message through). -/
+def Rule.matchWith (evalArg0 : Bool) (r : Rule) (m : Msg) : Outcome :=
+  match r.match m with
+  | .call =>
+    if evalArg0 then
+      match matchArg0ns r (m.body.getD []) with
+      | some o => o
+      | none => .call
+    else .call
+  | o => o
+
+/-- `Rule.match(m)` of the tree under test. -/
+def Rule.matchGen (r : Rule) (m : Msg) : Outcome := r.matchWith Gen.Route.evaluatesArg0ns m
+
 end Txdbus.Route
